@@ -173,6 +173,32 @@ def c04(ctx, node, mname, meta=None, model_rm=None):
         ctx.fail('interpret!=reference', mech=d.split()[0],
                  detail={'text': _fmt(node), 'model': mname, 'diff': d[:700]},
                  payload=payload(node, mname))
+    if ctx.evaluations % 6 == 0 and d != 'skip':
+        # "decoding a text": every way of decoding the text under the model gives this graph
+        ok_f, s = ctx.call(penman.format, tree, clause='format')
+        same = False
+        if ok_f:
+            try:
+                same = penman.parse(s).node == T.norm_tree(node) or penman.parse(s).node == node
+            except Exception:
+                same = False
+        if same:
+            from pmon import canon
+            codec = penman.PENMANCodec(model=model)
+            want_sig = canon.graph_sig(g)[:3]      # top, triples, markers (metadata: C01/C09)
+            forms = (('penman.decode', lambda: penman.decode(s, model=model)),
+                     ('codec.decode', lambda: codec.decode(s)),
+                     ('penman.loads', lambda: penman.loads(s, model=model)[0]),
+                     ('penman.iterdecode', lambda: next(iter(penman.iterdecode(s, model=model)))),
+                     ('codec.iterdecode(lines)', lambda: list(codec.iterdecode(s.split('\n')))[0]))
+            for fname, f in forms:
+                okd, gd = ctx.call(f, clause='decode-forms:' + fname)
+                ctx.count('decode_forms')
+                if okd and canon.graph_sig(gd)[:3] != want_sig:
+                    ctx.fail('decode-forms-disagree', mech=fname,
+                             detail={'text': s[:400], 'model': mname, 'form': fname,
+                                     'got': repr(gd.triples)[:300], 'interpret': repr(g.triples)[:300]},
+                             payload=payload(node, mname))
     # public accessors report the same alignments
     from penman import surface
     ok1, al = ctx.call(surface.alignments, g, clause='alignments')
@@ -288,12 +314,36 @@ def c02_text(ctx, node, mname, rng):
 
 def c14(ctx, node, mname):
     _, model, rm, _ = M.get(mname)
-    ok, g = ctx.call(layout.interpret, Tree(node), model, clause='interpret')
-    if not ok:
-        return
+    # "a graph decoded from a well-formed tree": by any of the decoding entry points, in turn
+    form = ctx.evaluations % 5
+    g = None
+    if form:
+        try:
+            s = penman.format(Tree(node))
+            if penman.parse(s).node == T.norm_tree(node):
+                f = [None,
+                     lambda: penman.decode(s, model=model),
+                     lambda: penman.PENMANCodec(model=model).decode(s),
+                     lambda: penman.loads(s, model=model)[0],
+                     lambda: next(iter(penman.iterdecode(s.split('\n'), model=model)))][form]
+                ok, g = ctx.call(f, clause='decode(form %d)' % form)
+                if not ok:
+                    return
+                ctx.count('decoded_via_text')
+        except Exception:
+            g = None
+    if g is None:
+        ok, g = ctx.call(layout.interpret, Tree(node), model, clause='interpret')
+        if not ok:
+            return
     rows = ref_diag(node, rm)
     if [r[0] for r in rows] != list(g.triples):
-        return   # C04's business; the diagnostics are defined relative to the reading
+        # C04's business (the diagnostics are defined relative to the reading): reported as an
+        # observation of that property's law, never as a C14 violation
+        ctx.fail('interpret!=reference', prop='C04', mech='under-C14',
+                 detail={'text': _fmt(node), 'model': mname, 'got': repr(g.triples)[:300],
+                         'reference': repr([r[0] for r in rows])[:300]}, payload=payload(node, mname))
+        return
     ok, ctxs = ctx.call(layout.node_contexts, g, clause='node_contexts')
     if ok:
         want = [r[1] for r in rows]
